@@ -241,12 +241,16 @@ type monitor struct {
 	hits      int
 	innerRuns int
 	outerMemo int
+	// reused: node objects that a sequence-type parser (which builds its result nodes
+	// itself) handed out although they had been handed out before - a sharing channel
+	// other than the result cache
+	reused map[interface{}]string
 }
 
 const c07Known = "C07-rtrim-readerpos"
 
 func newMonitor() *monitor {
-	return &monitor{nodes: map[interface{}]*shallow{}, lists: map[listKey][]kidKey{}, knownOpen: openFindings[c07Known]}
+	return &monitor{nodes: map[interface{}]*shallow{}, lists: map[listKey][]kidKey{}, knownOpen: openFindings[c07Known], reused: map[interface{}]string{}}
 }
 
 func isPtrNode(n parsley.Node) bool {
@@ -382,6 +386,13 @@ func (m *monitor) checkAll() {
 		}
 		cu := m.culprit()
 		if field == "readerPos" && cu.label == "rtrim" && m.knownOpen {
+			if by, shared := m.reused[n]; shared {
+				// not the open finding's history: the node is shared because an un-memoised
+				// sequence parser handed out the same object twice
+				m.viol = &c07Violation{class: "frozen:readerPos", culprit: cu.label, field: field,
+					detail: fmt.Sprintf("readerPos of a %s node returned earlier (token %q, %d..%d) changed to %d while parser %q was running; the node is held by two consumers because the un-memoised parser %q handed out the same node object from two separate calls", old.typ, old.token, old.pos, old.rpos, cur.rpos, cu.label, by)}
+				return
+			}
 			m.known++
 			old.rpos = cur.rpos
 			continue
@@ -445,6 +456,7 @@ type recP struct {
 	idx   int
 	inner bool
 	memo  bool
+	fresh bool // sequence-type parser without ReturnSingle: builds its own result nodes
 	p     parsley.Parser
 }
 
@@ -469,6 +481,23 @@ func (r recP) Parse(ctx *parsley.Context, lrc data.IntMap, pos parsley.Pos) (par
 	if nl, ok := n.(ast.NodeList); ok && len(nl) > 64 {
 		panic(discard{"list-budget"})
 	}
+	if r.fresh {
+		// a sequence-type parser constructs its result nodes itself: every one is new
+		check := func(t parsley.Node) {
+			if isPtrNode(t) {
+				if _, seen := m.nodes[t]; seen {
+					m.reused[t] = r.label
+				}
+			}
+		}
+		if nl, ok := n.(ast.NodeList); ok {
+			for _, e := range nl {
+				check(e)
+			}
+		} else if n != nil {
+			check(n)
+		}
+	}
 	m.track(n)
 	m.checkAll()
 	m.stack = m.stack[:len(m.stack)-1]
@@ -480,13 +509,18 @@ func (r recP) Parse(ctx *parsley.Context, lrc data.IntMap, pos parsley.Pos) (par
 }
 
 func (m *monitor) wrap(idx int, n *GNode, layer string, p parsley.Parser) parsley.Parser {
+	fresh := false
+	switch n.Op {
+	case "seq", "seqtry", "seqfoa", "many", "many1", "sepby", "sepby1", "sentence":
+		fresh = n.Arg != "single"
+	}
 	if layer == "inner" {
-		return recP{m: m, label: n.Op, idx: idx, inner: true, p: p}
+		return recP{m: m, label: n.Op, idx: idx, inner: true, fresh: fresh, p: p}
 	}
 	if n.Memo {
 		return recP{m: m, label: "memoize", idx: idx, memo: true, p: p}
 	}
-	return recP{m: m, label: n.Op, idx: idx, p: p}
+	return recP{m: m, label: n.Op, idx: idx, fresh: fresh, p: p}
 }
 
 func (s *c07Step) parser(c *c07Case, b *built, m *monitor, nullable []bool) parsley.Parser {
